@@ -189,3 +189,51 @@ cJSON *bad_SHP1_detach(cJSON *parent, cJSON * const item)
     return item;
 }
 int tree_bad_use(const cJSON *a) { return print_value(a); }
+
+/* CMP1: key comparators over all byte pairs */
+#include <ctype.h>
+static unsigned char fold25(const unsigned char c) { if ((unsigned char)(c - 'A') < (unsigned char)('Z' - 'A')) { return (unsigned char)(c | 0x20); } return c; }
+static unsigned char fold26(const unsigned char c) { if ((c >= 'A') && (c <= 'Z')) { return (unsigned char)(c + ('a' - 'A')); } return c; }
+int bad_CMP1_fold25(const unsigned char *s1, const unsigned char *s2)
+{
+    if ((s1 == NULL) || (s2 == NULL)) { return 1; }
+    for (; fold25(*s1) == fold25(*s2); (void)s1++, s2++) { if (*s1 == '\0') { return 0; } }
+    return fold25(*s1) - fold25(*s2);
+}
+int good_fold26(const unsigned char *s1, const unsigned char *s2)
+{
+    if ((s1 == NULL) || (s2 == NULL)) { return 1; }
+    if (s1 == s2) { return 0; }
+    for (; fold26(*s1) == fold26(*s2); (void)s1++, s2++) { if (*s1 == '\0') { return 0; } }
+    return fold26(*s1) - fold26(*s2);
+}
+/* raw difference where the folded bytes differ: 'B' sorts before 'a' */
+int bad_CMP1_raw_sign(const unsigned char *s1, const unsigned char *s2)
+{
+    if ((s1 == NULL) || (s2 == NULL)) { return 1; }
+    for (; *s1 != '\0'; (void)s1++, s2++) { if ((*s1 != *s2) && (tolower(*s1) != tolower(*s2))) { break; } }
+    return *s1 - *s2;
+}
+/* the same loop with the folded difference */
+int good_break_loop(const unsigned char *s1, const unsigned char *s2)
+{
+    if ((s1 == NULL) || (s2 == NULL)) { return 1; }
+    for (; *s1 != '\0'; (void)s1++, s2++) { if ((*s1 != *s2) && (tolower(*s1) != tolower(*s2))) { break; } }
+    return tolower(*s1) - tolower(*s2);
+}
+/* NULL keys compare equal */
+int bad_CMP1_null_equal(const unsigned char *s1, const unsigned char *s2)
+{
+    if ((s1 == NULL) || (s2 == NULL)) { return 0; }
+    for (; toupper(*s1) == toupper(*s2); (void)s1++, s2++) { if (*s1 == '\0') { return 0; } }
+    return toupper(*s1) - toupper(*s2);
+}
+int cmp_users(const cJSON *a, const cJSON *b)
+{
+    int r = bad_CMP1_fold25((const unsigned char*)a->string, (const unsigned char*)b->string) != 0;
+    r += good_fold26((const unsigned char*)a->string, (const unsigned char*)b->string) == 0;
+    r += bad_CMP1_raw_sign((const unsigned char*)a->string, (const unsigned char*)b->string) < 0;
+    r += good_break_loop((const unsigned char*)a->string, (const unsigned char*)b->string) < 0;
+    r += bad_CMP1_null_equal((const unsigned char*)a->string, (const unsigned char*)b->string) > 0;
+    return r;
+}
